@@ -266,6 +266,32 @@ def angle3d_stream(ctx, n):
             ctx.disagree("C09:angle3d:planes", f"angle planes {h1} {h2}", cosn, rp[1:3], replay=[desc])
 
 
+def origin_lines(ctx, n):
+    """dist(plane, line) / dist(line, plane) for lines through the origin (their null-space basis starts with a point at
+    infinity) parallel to the plane: the Euclidean distance |d| / |n|"""
+    import geometer as g
+    rng = ctx.rng
+    for k in range(n):
+        nrm = np.array([float(rng.randint(-3, 3)) for _ in range(3)])
+        if not nrm.any():
+            continue
+        v = np.cross(nrm, [float(rng.randint(-3, 3)), float(rng.randint(-3, 3)), float(rng.randint(1, 3))])
+        if not v.any():
+            continue
+        d = float(rng.choice([1, 2, 3, -4, 6]))
+        E = g.Plane(*nrm, d)
+        L = g.Line(g.Point(0.0, 0.0, 0.0), g.Point(*v))
+        exp = abs(d) / float(np.linalg.norm(nrm))
+        desc = f"dist(plane {nrm.tolist()} {d}, line through the origin with direction {v.tolist()})"
+        ctx.case(desc)
+        ctx.count("dist:origin-line")
+        for name, f in (("plane-line", lambda: float(g.dist(E, L))), ("line-plane", lambda: float(g.dist(L, E)))):
+            r = call_impl(f)
+            if r[0] != "ok" or not close(r[1], exp, 1e-7):
+                ctx.disagree(f"C09:dist:origin-line:{name}", desc, exp, r[1:3], replay=[desc])
+                break
+
+
 def moved_polygon_stream(ctx, n):
     """dist(point, polygon) for a polygon of space obtained by translation / `+ Point` (the cached supporting plane must follow)"""
     import geometer as g
@@ -286,6 +312,7 @@ def moved_polygon_stream(ctx, n):
 
 
 def correspondence(ctx):
+    origin_lines(ctx, ctx.budget(30, 300))
     moved_polygon_stream(ctx, ctx.budget(30, 300))
     dist_stream(ctx, ctx.budget(600, 9000))
     dist_collection_stream(ctx, ctx.budget(60, 800))
